@@ -1,0 +1,20 @@
+//go:build verif
+
+package logic
+
+// VerifPsPubIsTcp reports whether the start_rtp_pub publisher of a stream listens on TCP
+// (ok is false when the stream has none).  Nothing here is compiled without -tags verif.
+func (sm *ServerManager) VerifPsPubIsTcp(streamName string) (isTcp bool, ok bool) {
+	sm.mutex.Lock()
+	defer sm.mutex.Unlock()
+	g := sm.getGroup("", streamName)
+	if g == nil {
+		return false, false
+	}
+	g.mutex.Lock()
+	defer g.mutex.Unlock()
+	if g.psPubSession == nil {
+		return false, false
+	}
+	return g.psPubSession.VerifIsTcp(), true
+}
